@@ -91,7 +91,7 @@ def run(spec):
         for name, files, main, hs in progs:
             cases.append({"mode": "dbg", "main": main, "files": files,
                           "opts": [("budget", 3000)] + [("hist", " ".join(h)) for h in hs]})
-        outs, _ = common.run_batch(cases)
+        outs, _ = common.run_batch(cases, case_cpu=60)
         for (name, files, main, hs), c, o in zip(progs, cases, outs):
             res.append((name, files, main, hs, c, o))
         return res
@@ -104,11 +104,11 @@ def run(spec):
     for (name, files, main, _), po in zip(progs, pouts):
         if "crash" in po or "timeout" in po or not po.get("ok"):
             continue
-        avail = [(f, l) for f, l, _ in po["pb"]]
+        avail = sorted(set((f, l) for f, l, _ in po["pb"]) | set((f, l) for _, f, l in po["li"]))
         hs = [rand_history(r, avail, r.randint(20, spec["hlen"])) for _ in range(spec["nh"])]
         cases.append({"mode": "dbg", "main": main, "files": files, "opts": [("budget", 4000)] + [("hist", " ".join(h)) for h in hs]})
         keep.append((name, files, main, hs))
-    outs, _ = common.run_batch(cases)
+    outs, _ = common.run_batch(cases, case_cpu=60)
     for (name, files, main, hs), c, o in zip(keep, cases, outs):
         res.append((name, files, main, hs, c, o))
     return res
